@@ -243,3 +243,93 @@ mod tests {
         }
     }
 }
+
+/// Response to the SECOND pulse of a run with frame period 1 (one spectrum per sample): the first
+/// `history.len()` frames carry other spectra, all later frames carry `fin`. The second pulse falls
+/// on sample `k2` (the period at 20 Hz), long after the history, when the coefficients have been
+/// stationary for `k2 - history.len()` samples. Returns (response from the pulse on, normalised by
+/// the pulse height; k2).
+#[allow(clippy::too_many_arguments)]
+pub fn measure_after_history(history: &[Vec<f64>], fin: &[f64], stage: usize, use_log_gain: bool, rate: usize, alpha: f64, beta: f64, window: usize) -> (Vec<f64>, usize) {
+    let p = period20(rate);
+    let mut k2 = 1usize;
+    while ((k2 + 1) as f64) < p {
+        k2 += 1;
+    }
+    let mut v = Vocoder::new(fin.len(), 0, stage, use_log_gain, rate, alpha, beta, 1.0, 1);
+    let lf0 = 20f64.ln();
+    let total = k2 + window;
+    let mut out = vec![0.0; total];
+    for n in 0..total {
+        let sp: &[f64] = if n < history.len() { &history[n] } else { fin };
+        v.synthesize(lf0, sp, &[], &mut out[n..n + 1]);
+    }
+    let amp = p.sqrt();
+    (out[k2..].iter().map(|x| x / amp).collect(), k2)
+}
+
+/// Frames that precede the measured, stationary spectrum `fin`:
+/// none | a constant spectrum that differs from `fin` only in a subset of components ("partial
+/// key") | a slow linear drift towards `fin` with a tiny per-frame step.
+pub fn gen_spectrum_history(t: &mut crate::tape::Tape, fin: &[f64], max_len: usize, lsp: bool) -> (Vec<Vec<f64>>, String) {
+    let l = fin.len();
+    match t.weighted(&[1, 4, 4]) {
+        0 => (vec![], "none".into()),
+        1 => {
+            let n = t.urange(1, max_len.min(40));
+            let subset = t.below(5);
+            let mut alt = fin.to_vec();
+            let amt = |t: &mut crate::tape::Tape, i: usize, x: f64| -> f64 {
+                if lsp {
+                    if i == 0 { x * t.uniform(0.8, 1.25) + if x == 0.0 { 0.1 } else { 0.0 } } else { x + t.uniform(-0.004, 0.004) }
+                } else {
+                    x + t.uniform(-0.3, 0.3)
+                }
+            };
+            let name = match subset {
+                0 => {
+                    alt[0] = amt(t, 0, alt[0]);
+                    "only-order-0"
+                }
+                1 => {
+                    if l > 1 {
+                        alt[1] = amt(t, 1, alt[1]);
+                    }
+                    "only-order-1"
+                }
+                2 => {
+                    for i in 2..l {
+                        alt[i] = amt(t, i, alt[i]);
+                    }
+                    "only-orders>=2"
+                }
+                3 => {
+                    alt[l - 1] = amt(t, l - 1, alt[l - 1]);
+                    "only-last"
+                }
+                _ => {
+                    for i in 0..l {
+                        alt[i] = amt(t, i, alt[i]);
+                    }
+                    "all"
+                }
+            };
+            (vec![alt; n], format!("partial-key:{}", name))
+        }
+        _ => {
+            let n = if t.chance(0.6) { max_len } else { t.urange(1, max_len) };
+            let delta = *t.pick(&[9e-7, 3e-7, 1e-9, 1e-5, 5e-7]);
+            let signs: Vec<f64> = (0..l).map(|_| if t.chance(0.5) { 1.0 } else { -1.0 }).collect();
+            let only_gain = t.chance(0.3);
+            let h = (0..n)
+                .map(|k| {
+                    fin.iter()
+                        .enumerate()
+                        .map(|(i, x)| if only_gain && i != 0 { *x } else { x + (n - k) as f64 * delta * signs[i] })
+                        .collect()
+                })
+                .collect();
+            (h, format!("slow-drift:{:e}", delta))
+        }
+    }
+}
